@@ -236,7 +236,7 @@ func TestC04(t *testing.T) {
 	if evid.Thorough() {
 		maxLen = 2500
 	}
-	rapid.Check(t, func(rt *rapid.T) { c04Case(rt, rec, maxLen, 0) })
+	checkProp(t, func(rt *rapid.T) { c04Case(rt, rec, maxLen, 0) })
 	rec.Exhaustive("every cut offset of each generated stream x 3 terminations", true)
 }
 
@@ -246,7 +246,7 @@ func TestC04(t *testing.T) {
 // frame boundary or header end, plus 40 drawn ones.
 func TestC04Big(t *testing.T) {
 	rec := evid.For("C04")
-	rapid.Check(t, func(rt *rapid.T) { c04Case(rt, rec, 70000, 40) })
+	checkProp(t, func(rt *rapid.T) { c04Case(rt, rec, 70000, 40) })
 }
 
 func c04Case(rt *rapid.T, rec *evid.Rec, maxLen, sample int) {
